@@ -190,6 +190,51 @@ def run(ctx):
                     same = mv == vals and mf[5:7] == f[5:7] and lc.parse_state_model(mf[7] if len(mf) > 7 else "/") == lc.parse_state_impl(f[7] if len(f) > 7 else "/")
                     if not same:
                         problems.append(("correspondence:partial:" + typ, "implementation %s, model %s" % (line, mres2[lc.KIND[typ]][ci]), rq, False))
+        # ---- Subsume: merging two adjacent fragments accumulates whole minus parts and yields the whole's chart state
+        ucases = []
+        for s in sents:
+            s = s[:8]
+            for a in range(0, len(s) + 1):
+                ucases.append((s[:a], s[a:]))
+        fmtu = lambda c: " ; ".join(" ".join("%x" % w for w in part) for part in c)
+        ulines = ["SUB " + fmtu(c) for c in ucases] + ["C ( " + " ".join("%x" % w for w in (c[0] + c[1])) + " )" for c in ucases]
+        ml3 = m.session_lines()
+        n3 = len(ml3)
+        for k in ("P", "T"):
+            ml3 += ["SUB %s %s" % (k, fmtu(c)) for c in ucases]
+        mo3 = vlib.run_lines(model_exe, ml3)
+        mres3 = {"P": mo3[n3:n3 + len(ucases)], "T": mo3[n3 + len(ucases):]}
+        for typ in ["probing", "rest", "trie"]:
+            rc, out, err = vlib.sh([lmq, sess.arpa, typ, sess.vocab, "tmp=" + sess.dir + "/"], input=("\n".join(ulines) + "\n").encode(), timeout=300)
+            stats["impl_runs"] += 1
+            res = out.split("\n")
+            if not res or not res[0].startswith("loaded"):
+                continue
+            body = res[1:1 + 2 * len(ucases)]
+            if len(body) != 2 * len(ucases):
+                problems.append(("crash:subsume:" + typ, "driver died in Subsume (rc=%d) %s" % (rc, err[-200:]), dict(base, type=typ), True))
+                continue
+            for ci, c in enumerate(ucases):
+                f = body[ci].split()
+                whole = body[len(ucases) + ci].split()
+                stats["subsumes"] = stats.get("subsumes", 0) + 1
+                vals = []
+                for x in f[:4]:
+                    u = lc.bits_to_units(int(x, 16))
+                    vals.append(int(u) if u.denominator == 1 else u)
+                adj, full, pa, pb = vals
+                rq = dict(base, type=typ, first=c[0], second=c[1])
+                if adj != full - pa - pb:
+                    problems.append(("spec:subsume-adjustment:" + typ, "Subsume adjustment %s/64, whole minus parts %s/64" % (adj, full - pa - pb), rq, True))
+                # merged chart state = chart state of the whole fragment (left length/full, right state)
+                if f[4:] != whole[1:]:
+                    problems.append(("spec:subsume-state:" + typ, "merged state %s, state of the whole fragment %s" % (" ".join(f[4:]), " ".join(whole[1:])), rq, True))
+                if typ in ("probing", "trie"):
+                    mf = mres3[lc.KIND[typ]][ci].split()
+                    mv = [(-int(v[1:], 16) if v.startswith("-") else int(v, 16)) for v in mf[:4]]
+                    same = mv == vals and mf[4:6] == f[4:6] and lc.parse_state_model(mf[6] if len(mf) > 6 else "/") == lc.parse_state_impl(f[6] if len(f) > 6 else "/")
+                    if not same:
+                        problems.append(("correspondence:subsume:" + typ, "implementation %s, model %s" % (body[ci], mres3[lc.KIND[typ]][ci]), rq, False))
         if mi < 2:
             ctx.sample({"order": m.order, "vocab": len(m.vocab), "ngrams": len(m.grams), "suffix_closed": m.suffix_closed(),
                         "tree": " ".join(cases[0][2]) if cases else None})
